@@ -128,7 +128,7 @@ def main():
     for o in obs:
         ex = json.dumps(exclude.get(o.name, []))
         wall = int(o.timeout * 1.6 + 60)
-        for i, (label, _) in enumerate(o.shard_list()):
+        for i, _sh in enumerate(o.shard_list()):
             jobs.append((o, "shard", ["--shard", str(i), "--exclude", ex], wall))
         jobs.append((o, "twin", ["--shard", "0", "--twin", "--exclude", ex], wall))
         if o.grid is not None:
